@@ -275,6 +275,59 @@ Section PerTree.
   Qed.
 End PerTree.
 
+Lemma sum_bound : forall (has : utree -> bool) (d : utree -> nat) k l,
+    (forall b, In b l -> has b = true -> d b = 0) -> (forall b, In b l -> d b <= k) ->
+    sumd d l <= (length l - cnt has l) * k.
+Proof.
+  intros has d k l H0 Hk.
+  induction l as [|b l IH]; [simpl; lia|].
+  assert (IH' : sumd d l <= (length l - cnt has l) * k).
+  { apply IH; [intros; apply H0; [right|]; assumption|intros; apply Hk; right; assumption]. }
+  pose proof (cnt_le _ has l) as CL'.
+  set (m := length l - cnt has l) in *.
+  unfold cnt in *. cbn [sumd fold_right filter length]. fold (sumd d l).
+  destruct (has b) eqn:E; cbn [length].
+  - rewrite (H0 b (or_introl eq_refl) E).
+    replace (S (length l) - S (length (filter has l))) with m by (unfold m; lia). lia.
+  - pose proof (Hk b (or_introl eq_refl)).
+    replace (S (length l) - length (filter has l)) with (S m) by (unfold m; lia).
+    simpl. lia.
+Qed.
+
+Lemma sum_zero : forall (d : utree -> nat) l, sumd d l = 0 <-> (forall b, In b l -> d b = 0).
+Proof.
+  intros d l. induction l as [|b l IH]; simpl.
+  - split; [intros _ b []|reflexivity].
+  - split.
+    + intros H b' [<-|Hb]; [lia|]. apply IH; [lia|exact Hb].
+    + intros H. rewrite (H b (or_introl eq_refl)). simpl. apply IH. intros; apply H; right; assumption.
+Qed.
+
+
+Local Open Scope Q_scope.
+Lemma q_ineq : forall a N P C,
+    0 < N -> 0 < P -> a <= (N - C) * P -> C / N <= 1 - a / N / P.
+Proof.
+  intros a N P C HN HP H.
+  assert (W : a / N / P <= (N - C) / N).
+  { apply Qle_shift_div_r; [exact HP|]. apply Qle_shift_div_r; [exact HN|].
+    setoid_replace ((N - C) / N * P * N) with ((N - C) * P) by (field; lra). exact H. }
+  assert (E : C / N + (N - C) / N == 1) by (field; lra).
+  set (u := C / N) in *. set (v := (N - C) / N) in *. set (w := a / N / P) in *.
+  clearbody u v w. lra.
+Qed.
+
+Lemma qnat_sub : forall a b, (b <= a)%nat -> qnat (a - b) == qnat a - qnat b.
+Proof.
+  intros a b H. unfold qnat. rewrite Nat2Z.inj_sub by exact H.
+  unfold Qeq, Qminus, Qplus, Qopp. simpl. lia.
+Qed.
+
+Lemma qnat_inj : forall a b, qnat a == qnat b -> a = b.
+Proof. intros a b H. unfold qnat, Qeq in H. simpl in H. lia. Qed.
+
+Local Close Scope Q_scope.
+
 (** * collections *)
 Definition same_taxa_p (ref b : utree) : Prop := forall x, In x (leaves ref) <-> In x (leaves b).
 
@@ -300,7 +353,7 @@ Section Collection.
     fold (cnt (has_split X A) boots).
     rewrite (cnt_ext_in _ (fbp_has ref c) (has_split X A) boots); [reflexivity|].
     intros b Hb. destruct (dom_boot b Hb) as [Gb Sb].
-    apply (fbp_lookup ref b e c G Gb Sb Hin P).
+    apply (fbp_lookup ref b e c G Gb Hin P).
   Qed.
 
   Lemma sumd_delta :
@@ -331,55 +384,12 @@ Section Collection.
                              (fbp_has ref c b = true <-> tree_dist ref c b = 0).
   Proof.
     intros b Hb P. destruct Dom as [G _]. destruct (dom_boot b Hb) as [Gb Sb].
-    unfold fbp_has. rewrite (fbp_lookup ref b e c G Gb Sb Hin P).
+    unfold fbp_has. rewrite (fbp_lookup ref b e c G Gb Hin P).
     rewrite (tree_dist_delta ref b e c G Gb Sb Hin P).
     apply has_split_delta. apply (X_nonempty ref e c G Hin).
   Qed.
 
-  Lemma sum_bound : forall (has : utree -> bool) (d : utree -> nat) k l,
-      (forall b, In b l -> has b = true -> d b = 0) -> (forall b, In b l -> d b <= k) ->
-      sumd d l <= (length l - cnt has l) * k.
-  Proof.
-    intros has d k l H0 Hk. pose proof (cnt_le _ has l) as CL.
-    induction l as [|b l IH]; [simpl; lia|].
-    assert (IH' : sumd d l <= (length l - cnt has l) * k).
-    { apply IH; [intros; apply H0; [right|]; assumption|intros; apply Hk; right; assumption|apply cnt_le]. }
-    pose proof (cnt_le _ has l) as CL'.
-    unfold cnt in *. simpl in *. destruct (has b) eqn:E; simpl in *.
-    - rewrite (H0 b (or_introl eq_refl) E). lia.
-    - pose proof (Hk b (or_introl eq_refl)).
-      replace (S (length l) - length (filter has l)) with (S (length l - length (filter has l))) by lia.
-      simpl. lia.
-  Qed.
-
-  Lemma sum_zero : forall (d : utree -> nat) l, sumd d l = 0 <-> (forall b, In b l -> d b = 0).
-  Proof.
-    intros d l. induction l as [|b l IH]; simpl.
-    - split; [intros _ b []|reflexivity].
-    - split.
-      + intros H b' [<-|Hb]; [lia|]. apply IH; [lia|exact Hb].
-      + intros H. rewrite (H b (or_introl eq_refl)). simpl. apply IH. intros; apply H; right; assumption.
-  Qed.
-
   Local Open Scope Q_scope.
-
-  Lemma q_ineq : forall a N P C,
-      0 < N -> 0 < P -> a <= (N - C) * P -> C / N <= 1 - a / N / P.
-  Proof.
-    intros a N P C HN HP H.
-    assert (W : a / N / P <= (N - C) / N).
-    { apply Qle_shift_div_r; [exact HP|]. apply Qle_shift_div_r; [exact HN|].
-      setoid_replace ((N - C) / N * P * N) with ((N - C) * P) by (field; lra). exact H. }
-    assert (E : C / N + (N - C) / N == 1) by (field; lra).
-    set (u := C / N) in *. set (v := (N - C) / N) in *. set (w := a / N / P) in *.
-    clearbody u v w. lra.
-  Qed.
-
-  Lemma qnat_sub : forall a b, (b <= a)%nat -> qnat (a - b) == qnat a - qnat b.
-  Proof.
-    intros a b H. unfold qnat. rewrite Nat2Z.inj_sub by exact H.
-    unfold Qeq, Qminus, Qplus, Qopp. simpl. lia.
-  Qed.
 
   (** transfer support is never below Felsenstein support *)
   Theorem tbe_ge_fbp :
@@ -397,9 +407,6 @@ Section Collection.
       + intros b Hb H. apply (has_zero b Hb P). exact H.
       + intros b _. apply tree_dist_le.
   Qed.
-
-  Lemma qnat_inj : forall a b, qnat a == qnat b -> a = b.
-  Proof. intros a b H. unfold qnat, Qeq in H. simpl in H. lia. Qed.
 
   Lemma fbp_one : boots <> [] -> (fbp_val ref boots c == 1 <-> cnt (fbp_has ref c) boots = length boots).
   Proof.
@@ -449,6 +456,6 @@ Section Collection.
   Proof.
     intros P NE. rewrite (fbp_one NE), cnt_full. destruct Dom as [G _].
     split; intros H b Hb; destruct (dom_boot b Hb) as [Gb Sb]; specialize (H b Hb);
-      unfold fbp_has in *; rewrite (fbp_lookup ref b e c G Gb Sb Hin P) in *; exact H.
+      unfold fbp_has in *; rewrite (fbp_lookup ref b e c G Gb Hin P) in *; exact H.
   Qed.
 End Collection.
